@@ -18,3 +18,21 @@ package types
 //@   ensures [filterResult-present] o.Metadata.JqFilter != "" || o.FilterResult != nil ==> has(result, "filterResult")
 //@   ensures [filterResult-value/no-jq]     o.Metadata.JqFilter == "" && o.FilterResult != nil ==> result["filterResult"] == o.FilterResult
 //@   ensures [filterResult-value/go-value]  o.Metadata.JqFilter != "" && !dyntype(o.FilterResult, string) ==> result["filterResult"] == o.FilterResult
+
+// ---- C02: the order of objects in a snapshot depends only on namespace and name ---------------
+//@ pure *k8s.io/apimachinery/pkg/apis/meta/v1/unstructured.Unstructured.GetNamespace *k8s.io/apimachinery/pkg/apis/meta/v1/unstructured.Unstructured.GetName
+
+// the sort key of one snapshot entry
+//@ pred NsNameLess(p ObjectAndFilterResult, q ObjectAndFilterResult) := ite(p.Object == nil || q.Object == nil, p.Metadata.ResourceId < q.Metadata.ResourceId,
+//@     p.Object.GetNamespace() < q.Object.GetNamespace() || (p.Object.GetNamespace() == q.Object.GetNamespace() && p.Object.GetName() < q.Object.GetName()))
+
+// C02: Less compares by (namespace, name) of the objects - by resource id when full objects are
+// not kept - and by nothing else; it is irreflexive and asymmetric (a strict order on the keys).
+//@ func (ByNamespaceAndName).Less
+//@   prop C02
+//@   opt theory=strings
+//@   requires 0 <= i && i < len(a) && 0 <= j && j < len(a)
+//@   modifies nothing
+//@   ensures [by-key]      result == NsNameLess(a[i], a[j])
+//@   ensures [irreflexive] i == j ==> !result
+//@   ensures [asymmetric]  result ==> !NsNameLess(a[j], a[i])
